@@ -136,6 +136,10 @@ Definition cand (path:str) (o:obj) : bool :=
 (* "primary_id is not None and primary_id >= stop_id": comparing with stop_id None is a TypeError *)
 Definition stops (stop:nat) (o:obj) : bool := negb (oid o =? 0)%nat && (stop <=? oid o)%nat.
 
+(* "if object.is_disabled: continue" comes after the stop test and before the candidate test:
+   a disabled object can end the scan but is never a candidate (and so never descended into) *)
+Definition live_cand (path:str) (o:obj) : bool := negb (odis (ohdr o)) && cand path o.
+
 (* first loop: the candidates, in document order *)
 Fixpoint scan (stop:nat) (path:str) (l:list obj) : res (list obj) :=
   match l with
@@ -143,7 +147,7 @@ Fixpoint scan (stop:nat) (path:str) (l:list obj) : res (list obj) :=
   | o :: r =>
       if negb (oid o =? 0)%nat && (stop =? 0)%nat then Crash (s_ "TypeError")
       else if stops stop o then Ok []
-      else do cs <- scan stop path r; Ok (if cand path o then o :: cs else cs)
+      else do cs <- scan stop path r; Ok (if live_cand path o then o :: cs else cs)
   end.
 
 (* second loop: [l] = candidates in pop() order, i.e. last first.  A candidate whose name is
@@ -402,7 +406,7 @@ Definition doc_ordered (t:list obj) : bool := ordb (pre_ids_l t) && defs_have_id
 (* ------------------------------------------------------------------ what a lookup with stop_id <= n can see *)
 (* the objects of one scope that a lookup with this stop_id looks at: everything before the
    first object whose id is present and >= stop_id (specification of the first loop of
-   lexical_get: scan = filter cand over visible, VarsProofs.scan_visible) *)
+   lexical_get: scan = filter live_cand over visible, VarsProofs.scan_visible) *)
 Fixpoint visible (stop:nat) (l:list obj) : list obj :=
   match l with [] => [] | o :: r => if stops stop o then [] else o :: visible stop r end.
 
